@@ -236,6 +236,14 @@ impl CaseInput for PkceFlowCase {
         if verifier.len() < 43 {
             verifier = "a".repeat(43);
         }
+        // a verifier is an opaque string to the library: one that ENDS in a line ending / blank / NUL (read from a file or
+        // an environment variable) must reach the token endpoint exactly as the challenge was derived from it
+        if r.chance(1, 5) {
+            while verifier.len() > 126 {
+                verifier.pop();
+            }
+            verifier.push_str(*r.pick(&["\n", "\r\n", "\r", " ", "\t", "\0", "\n\n"]));
+        }
         let ex = |r: &mut Rng| -> Vec<(String, String)> {
             (0..r.below(3))
                 .map(|_| (r.pick(&["code_challenge", "code_verifier", "code_challenge_method", "x"]).to_string(), gen::hostile_s(r)))
